@@ -31,6 +31,23 @@ pub enum Op {
     /// the refusal (the graft, nothing, or part of it), so the model takes the left graph as it is
     /// found afterwards and the history goes on from there: whatever it is, it has to keep obeying C01-C05.
     MergeFail(u8, usize),
+    /// deploy the script `ADD(a); ADD(b); BIND(a, b, α0); PUT(b, 01-..-08);` onto the graph; with
+    /// k = 1 a malformed fifth command follows: the call has to return Err *after the commands before
+    /// it have been applied* (C14), and the history goes on from there
+    Script(u8, usize, usize),
+}
+
+/// the add/bind/put calls the commands of the script stand for (all of them are applied for k = 0 and k = 1)
+pub fn script_ops(a: usize, b: usize) -> [Op; 4] {
+    [Op::Add(a), Op::Add(b), Op::Bind(a, b, 0), Op::Put(b, 0)]
+}
+
+pub fn script_text(k: u8, a: usize, b: usize) -> String {
+    let mut t = format!("ADD({a}); ADD(ν{b});\nBIND({a}, {b}, α0); # put comes next\n PUT({b}, 01-02-03-04-05-06-07-08);");
+    if k == 1 {
+        t.push_str(&format!(" BIND({b}, {a}x, α0); ADD({a});"));
+    }
+    t
 }
 
 impl Op {
@@ -54,6 +71,7 @@ impl Op {
             Op::ReloadSwap => "g=load(save(g))".into(),
             Op::Merge(k, l) => format!("merge(H{k},left={l})"),
             Op::MergeFail(k, l) => format!("merge(H{k}+stray,left={l})=Err"),
+            Op::Script(k, a, b) => format!("deploy_to({:?}){}", script_text(*k, *a, *b), if *k == 1 { "=Err" } else { "" }),
         }
     }
 }
@@ -157,6 +175,16 @@ impl Model {
             Op::NextId | Op::AddNext => self.has_free_id(impl_pos),
             Op::CloneSwap | Op::CloneFromSwap | Op::ReloadSwap => true,
             Op::Merge(k, left) | Op::MergeFail(k, left) => self.merge_enabled(&fixed_tree(*k), *left, impl_pos),
+            Op::Script(_, a, b) => {
+                let mut sim = self.clone();
+                for op in script_ops(*a, *b) {
+                    if !sim.enabled(&op, impl_pos) {
+                        return false;
+                    }
+                    sim.apply(&op);
+                }
+                true
+            }
         }
     }
 
@@ -436,6 +464,11 @@ impl Model {
                 }
             }
             Op::CloneSwap | Op::CloneFromSwap => {}
+            Op::Script(_, a, b) => {
+                for op in script_ops(*a, *b) {
+                    self.apply(&op);
+                }
+            }
             Op::ReloadSwap => {
                 self.pos = 0;
                 self.returned.clear();
